@@ -58,6 +58,21 @@ def handle (hdr : List String) (body : List (List String)) : List String :=
       let c13a := if sp != 0 && impl.any (fun e => e.ref.num > sp) then ["monitor C13 FAIL event-delivered-above-the-stop-block"] else []
       let c13b := if impl.all (fun e => passesFilter cfg e.step) then [] else ["monitor C13 FAIL event-that-the-step-filter-must-remove-was-delivered"]
       let c13c := if send == "panic" || send == "hang" then ["monitor C13 FAIL stream-crash-or-hang"] else []
+      -- the stop block itself is delivered when it exists: when the run ends with stop-block-reached and the chain the
+      -- hub ends up on (ancestry of its single highest block) has a block at height S, an event for height S was delivered
+      let maxNum := (pushes.map (·.blk.num)).foldl max 0
+      let tops := pushes.filter (·.blk.num == maxNum)
+      let rec chainOf (fuel : Nat) (id : Id) (acc : List Blk) : List Blk :=
+        match fuel with
+        | 0 => acc
+        | fuel + 1 => match allBlks.find? (·.id == id) with
+          | some b => chainOf fuel b.parent (b :: acc)
+          | none => acc
+      let finalChain : List Blk := match tops with | [t] => chainOf (allBlks.length + 1) t.blk.id [] | _ => []
+      let filterSeesBlocks := cfg.finalOnly || (match cfg.customFilter with | some m => m % 2 == 1 || (m / 16) % 2 == 1 | none => true)
+      let resumedPastStop := match cfg.cursor with | some c => c.block.num ≥ sp | none => false
+      let c13d := if send == "stop" && sp != 0 && filterSeesBlocks && !resumedPastStop && finalChain.any (·.num == sp) && !(impl.any (·.ref.num == sp))
+                  then ["monitor C13 FAIL stop-block-reached-without-delivering-the-stop-block"] else []
       -- C07 (default filter, by number or from cursor): one sequence following the undo/new discipline from the
       -- consumer state implied by the start point, events for blocks below the first delivered block aside
       let c07 : List String :=
@@ -90,7 +105,7 @@ def handle (hdr : List String) (body : List (List String)) : List String :=
             let held := r.stack.map (·.id)
             if held.length == (held.foldl (fun (l : List Id) i => if l.contains i then l else l ++ [i]) []).length then []
             else ["monitor C07 FAIL a-block-is-held-twice-after-the-handoff"]
-      model ++ (c13c ++ c13a ++ c13b).take 1 ++ c07.take 1
+      model ++ (c13c ++ c13a ++ c13b ++ c13d).take 1 ++ c07.take 1
     | _, _, _, _, _ => ["model bad-case"]
   | _ => ["model bad-case"]
 
